@@ -254,7 +254,11 @@ func isZeroName(x names.Name) bool { return namesParts(x) == [4]string{} }
 
 // checkStr feeds s, unchanged, to every entry point: as a name, as a name
 // relative path and as a digest.
-func (e *env) checkStr(s string) *checker {
+//
+// blobsPath selects whether server.GetBlobsPath is among them: it recompiles
+// its regular expression on every call (~100us), so it is fed the digest
+// shaped families and the shorter sigma strings only (see bounds in main.go).
+func (e *env) checkStr(s string, blobsPath bool) *checker {
 	k := &checker{e: e, s: s}
 
 	// ---- types/model ------------------------------------------------------
@@ -336,6 +340,9 @@ func (e *env) checkStr(s string) *checker {
 
 	// ---- digests ----------------------------------------------------------------
 	k.try("GetBlobsPath", func() {
+		if !blobsPath {
+			return
+		}
 		p, err := server.GetBlobsPath(s)
 		if err != nil {
 			return
